@@ -132,7 +132,7 @@ pub fn run(tier: Tier) -> i32 {
     let gen = case_gen(
         reg.clone(),
         reg.all(),
-        GenOpts { dup_keys: true, scripts: ScriptMode::Mixed, blind: 0.05, min_fault: 0.06, ..GenOpts::default() },
+        GenOpts { dup_keys: true, nonfinite: true, scripts: ScriptMode::Mixed, blind: 0.05, min_fault: 0.06, ..GenOpts::default() },
     );
     drive(
         "C03",
